@@ -150,13 +150,17 @@ fn same_failure(v: &Verdict, clause: &str) -> bool {
 }
 
 /// delta-debugging over scenarios: keep an edit iff the *same oracle clause* still fails
-pub fn shrink(def: &CheckDef, scn: &Scn, clause: &str, budget: usize) -> (Scn, usize) {
+pub fn shrink(def: &CheckDef, scn: &Scn, clause: &str, budget: usize, reject: &dyn Fn(&Scn, &str, &str) -> bool) -> (Scn, usize) {
     let mut best = scn.clone();
     let mut tries = 0usize;
-    let mut test = |c: &Scn, tries: &mut usize| -> bool {
+    let test = |c: &Scn, tries: &mut usize| -> bool {
         *tries += 1;
         let mut ctx = Ctx::new();
-        same_failure(&guarded(def.exec, c, &mut ctx), clause)
+        match guarded(def.exec, c, &mut ctx) {
+            // same oracle clause, and the edit must not turn the failure into a recorded finding
+            Verdict::Violation { clause: cl, detail } if cl == clause => !reject(c, &cl, &detail),
+            _ => false,
+        }
     };
     let mut progress = true;
     while progress && tries < budget {
@@ -558,7 +562,8 @@ pub fn run_check(def: &CheckDef, opts: &RunOpts) -> i32 {
             continue;
         }
         shrunk += 1;
-        let (min, tries) = shrink(def, &scn, clause, 3000);
+        let reject = |c: &Scn, cl: &str, d: &str| crate::findings::classify(&findings, def.id, c, cl, d).is_some();
+        let (min, tries) = shrink(def, &scn, clause, 3000, &reject);
         let mut ctx = Ctx::new();
         let v = guarded(def.exec, &min, &mut ctx);
         let (clause2, detail) = match &v {
@@ -619,6 +624,11 @@ pub fn run_check(def: &CheckDef, opts: &RunOpts) -> i32 {
     if unclassified > 0 {
         println!("note: {} further failing runs match no known finding and were not minimised (limit {})", unclassified, max_shrunk);
         violations += unclassified;
+    }
+    if violations > 0 && exit == 0 {
+        // can only happen if every minimised trace was lost on the way: never report success then
+        println!("HARNESS-ERROR: {} failing runs match no known finding but no replay file could be produced", violations);
+        exit = 2;
     }
     for f in findings.iter().filter(|f| f.property == def.id && f.status == "open") {
         let n = known_hits.get(&f.id).copied().unwrap_or(0);
